@@ -1,4 +1,5 @@
 import BitbybitModel.Lemmas.SetterEval
+import BitbybitModel.Lemmas.ReadBack
 /-! # The setter body computes the reference write -/
 namespace Bb
 open Expr BinOp
@@ -98,7 +99,8 @@ theorem listOk_of {W : Nat} : ∀ (rs : List Rng) (t : Nat),
     exact ⟨by omega, hr.2.1, hr.2.2, by omega, ih (t + r.len) (fun q hq => h q (by simp [hq])) (by omega)⟩
 
 /-- the value computed by `setter_new_raw_value`, for every accepted field: it exists, it fits the storage,
-    and for pairwise disjoint range lists it is the reference write -/
+    for pairwise disjoint range lists it is the reference write, and for *every* list (one that names a bit twice
+    included) the positions no range covers keep the receiver's bits -/
 theorem eval_setterNewRawValue (Γ : CustomEnv) (chk : Bool) (ρ : Env) (B : Base) (fd : FieldDef) (raw i : Nat) (fv : Val) (v : Nat)
     (hB : B.WF) (hok : FieldOk B fd) (hwide : fd.totalBits ≤ B.internal)
     (hraw : ρ.raw = .int B.W raw) (hrawlt : raw < 2 ^ B.internal)
@@ -106,7 +108,8 @@ theorem eval_setterNewRawValue (Γ : CustomEnv) (chk : Bool) (ρ : Env) (B : Bas
     (hi : ∀ c s, fd.array = some (c, s) → i < c) (harg : ArgOk Γ fd fv v) :
     ∃ e, setterNewRawValue B fd = some e ∧ ∃ x, eval Γ chk ρ e = .ok (.int B.W x) ∧ x < 2 ^ B.internal ∧
       (pairwiseDisjoint fd.ranges = true → x = writeSpec B.internal raw v (offOf i fd.stride) fd.ranges) ∧
-      (raw < 2 ^ B.exposed → x < 2 ^ B.exposed) := by
+      (raw < 2 ^ B.exposed → x < 2 ^ B.exposed) ∧
+      (∀ p, fd.ranges.any (·.covers (offOf i fd.stride) p) = false → x.testBit p = raw.testBit p) := by
   have hWb := hB.W_bits
   have hWs := hB.W_signed
   have hexp := hB.exposed_le
@@ -158,14 +161,16 @@ theorem eval_setterNewRawValue (Γ : CustomEnv) (chk : Bool) (ρ : Env) (B : Bas
       · refine ⟨raw ||| 2 ^ lo, by rw [eval_ite_bool Γ chk ρ _ _ _ _ (hargE ρ hfv), if_pos hvb]; exact h1, ?_, ?_⟩
         · simp only [hvb, if_true, Nat.add_zero] at hsp; rw [hsp]; exact writeSpec_lt _ _ _ _ _
         · simp only [hvb, if_true, Nat.add_zero] at hsp
-          refine ⟨fun _ => by rw [hsp, hr, hoff], fun hre => ?_⟩
-          rw [hsp]; exact writeSpec_lt_of _ _ _ _ _ _ hre (by rw [← hoff, ← hr]; exact hboundE)
+          refine ⟨fun _ => by rw [hsp, hr, hoff], fun hre => ?_, fun p hp => ?_⟩
+          · rw [hsp]; exact writeSpec_lt_of _ _ _ _ _ _ hre (by rw [← hoff, ← hr]; exact hboundE)
+          · rw [hsp]; exact writeSpec_outside _ _ _ _ _ p hrawlt (by rw [← hoff, ← hr]; exact hp)
       · have hvb' : (v != 0) = false := by simpa using hvb
         refine ⟨raw &&& (2 ^ B.W.bits - 1 - 2 ^ lo), by rw [eval_ite_bool Γ chk ρ _ _ _ _ (hargE ρ hfv), hvb']; exact h2, ?_, ?_⟩
         · simp only [hvb', Bool.false_eq_true, if_false, Nat.add_zero] at hsp; rw [hsp]; exact writeSpec_lt _ _ _ _ _
         · simp only [hvb', Bool.false_eq_true, if_false, Nat.add_zero] at hsp
-          refine ⟨fun _ => by rw [hsp, hr, hoff], fun hre => ?_⟩
-          rw [hsp]; exact writeSpec_lt_of _ _ _ _ _ _ hre (by rw [← hoff, ← hr]; exact hboundE)
+          refine ⟨fun _ => by rw [hsp, hr, hoff], fun hre => ?_, fun p hp => ?_⟩
+          · rw [hsp]; exact writeSpec_lt_of _ _ _ _ _ _ hre (by rw [← hoff, ← hr]; exact hboundE)
+          · rw [hsp]; exact writeSpec_outside _ _ _ _ _ p hrawlt (by rw [← hoff, ← hr]; exact hp)
     | some cs =>
       obtain ⟨c, s⟩ := cs
       have hoff : offOf i fd.stride = i * s := by simp [FieldDef.stride, ha, offOf]
@@ -187,14 +192,16 @@ theorem eval_setterNewRawValue (Γ : CustomEnv) (chk : Bool) (ρ : Env) (B : Bas
       · refine ⟨raw ||| 2 ^ (lo + i * s), by rw [hlet, eval_ite_bool Γ chk ρ' _ _ _ _ (hargE ρ' hfv'), if_pos hvb]; exact h1, ?_, ?_⟩
         · simp only [hvb, if_true] at hsp; rw [hsp]; exact writeSpec_lt _ _ _ _ _
         · simp only [hvb, if_true] at hsp
-          refine ⟨fun _ => by rw [hsp, hr, hoff], fun hre => ?_⟩
-          rw [hsp]; exact writeSpec_lt_of _ _ _ _ _ _ hre (by rw [← hoff, ← hr]; exact hboundE)
+          refine ⟨fun _ => by rw [hsp, hr, hoff], fun hre => ?_, fun p hp => ?_⟩
+          · rw [hsp]; exact writeSpec_lt_of _ _ _ _ _ _ hre (by rw [← hoff, ← hr]; exact hboundE)
+          · rw [hsp]; exact writeSpec_outside _ _ _ _ _ p hrawlt (by rw [← hoff, ← hr]; exact hp)
       · have hvb' : (v != 0) = false := by simpa using hvb
         refine ⟨raw &&& (2 ^ B.W.bits - 1 - 2 ^ (lo + i * s)), by rw [hlet, eval_ite_bool Γ chk ρ' _ _ _ _ (hargE ρ' hfv'), hvb']; exact h2, ?_, ?_⟩
         · simp only [hvb', Bool.false_eq_true, if_false] at hsp; rw [hsp]; exact writeSpec_lt _ _ _ _ _
         · simp only [hvb', Bool.false_eq_true, if_false] at hsp
-          refine ⟨fun _ => by rw [hsp, hr, hoff], fun hre => ?_⟩
-          rw [hsp]; exact writeSpec_lt_of _ _ _ _ _ _ hre (by rw [← hoff, ← hr]; exact hboundE)
+          refine ⟨fun _ => by rw [hsp, hr, hoff], fun hre => ?_, fun p hp => ?_⟩
+          · rw [hsp]; exact writeSpec_lt_of _ _ _ _ _ _ hre (by rw [← hoff, ← hr]; exact hboundE)
+          · rw [hsp]; exact writeSpec_outside _ _ _ _ _ p hrawlt (by rw [← hoff, ← hr]; exact hp)
   · -- integer-like fields
     have hfd : ¬ fd.fromDataType = some BITCOUNT_BOOL := fun h => hbool (hok.bool_iff.mpr h)
     have hcast : ∀ ρ' : Env, ρ'.fieldValue = fv → eval Γ chk ρ' (.cast (argumentConverted fd) B.W) = .ok (.int B.W v) :=
@@ -203,11 +210,13 @@ theorem eval_setterNewRawValue (Γ : CustomEnv) (chk : Bool) (ρ : Env) (B : Bas
     -- the generic conclusion from the closed form
     have conclude : ∀ x, x = scatterResult B.internal raw v (offOf i fd.stride) fd.ranges →
         x < 2 ^ B.internal ∧ (pairwiseDisjoint fd.ranges = true → x = writeSpec B.internal raw v (offOf i fd.stride) fd.ranges) ∧
-        (raw < 2 ^ B.exposed → x < 2 ^ B.exposed) := by
+        (raw < 2 ^ B.exposed → x < 2 ^ B.exposed) ∧
+        (∀ p, fd.ranges.any (·.covers (offOf i fd.stride) p) = false → x.testBit p = raw.testBit p) := by
       intro x hx
       subst hx
       exact ⟨scatterResult_lt _ _ _ _ _ hrawlt hfit, fun hd => scatterResult_eq_writeSpec _ _ _ _ _ hrawlt hfit hd,
-        fun hre => scatterResult_lt_of _ _ _ _ _ _ hre hboundE⟩
+        fun hre => scatterResult_lt_of _ _ _ _ _ _ hre hboundE,
+        fun p hp => scatterResult_outside_any _ _ _ _ _ p hrawlt hfit hp⟩
     cases hrs : fd.ranges with
     | nil => exact absurd hrs hok.nonempty
     | cons r rs =>
@@ -228,12 +237,17 @@ theorem eval_setterNewRawValue (Γ : CustomEnv) (chk : Bool) (ρ : Env) (B : Bas
             · unfold setterNewRawValue
               simp only [ha, hrs, if_neg hfd, if_pos hfull, if_pos hlo]
             · have hre : r = ⟨0, B.internal⟩ := by cases r; simp only [Rng.mk.injEq]; exact ⟨hlo, hfull⟩
-              refine ⟨fun _ => ?_, fun _ => ?_⟩
+              refine ⟨fun _ => ?_, fun _ => ?_, fun p hp => ?_⟩
               · rw [hoff, hre]
                 exact fullWidth_eq_writeSpec B.internal raw v (by rw [← hfull]; exact hvn)
               · have := hboundE r (by simp [hrs])
                 have hEq : B.exposed = B.internal := by omega
                 rw [hEq, ← hfull]; exact hvn
+              · -- the single range is the whole storage: an uncovered position lies above it
+                rw [hoff, hre] at hp
+                simp only [List.any_cons, List.any_nil, Bool.or_false, Rng.covers, Nat.add_zero, Nat.zero_le, decide_true,
+                  Bool.true_and, decide_eq_false_iff_not, Nat.zero_add, Nat.not_lt] at hp
+                rw [testBit_eq_false_of_lt (by rw [← hfull]; exact hvn) hp, testBit_eq_false_of_lt hrawlt hp]
           · have hn : r.len < B.W.bits := by omega
             have hlo64 : r.lo < 2 ^ 64 := lt_usize_of_lt_bits (W := B.W) (by omega)
             have hev := eval_singleTemplate Γ chk ρ B.W raw v r.len r.lo (usz r.lo) _ hraw hWs
